@@ -773,6 +773,28 @@ theorem cbcDecryptCalls_eq {β : Type} (xor : β → β → β) (D : β → β) 
     simp only [cbcDecryptCalls, cbcDecryptCall, List.flatten_cons]
     rw [cbcDecryptCalls_eq xor D rest, cbcDecrypt_append]
 
+theorem xorBytes_length (a b : Bytes) (h : a.length = b.length) : (xorBytes a b).length = a.length := by
+  simp [xorBytes, h]
+
+theorem xorBytes_cancel : ∀ (a b : Bytes), a.length = b.length → xorBytes (xorBytes a b) b = a
+  | [], [], _ => rfl
+  | [], _ :: _, h => by simp at h
+  | _ :: _, [], h => by simp at h
+  | x :: a, y :: b, h => by
+    have ih := xorBytes_cancel a b (by simpa using h)
+    simp only [xorBytes] at ih ⊢
+    simp only [List.zipWith_cons_cons, List.cons.injEq]
+    exact ⟨by rw [UInt8.xor_assoc, UInt8.xor_self, UInt8.xor_zero], ih⟩
+
+/-- the instance the correspondence run uses: 16-byte strings, bytewise xor, and any block function
+that maps 16-byte strings to 16-byte strings and is undone by `D` (AES with a fixed key) -/
+theorem cbcLaws_bytes16 (E D : Bytes → Bytes) (hE : ∀ x, x.length = 16 → (E x).length = 16)
+    (hDE : ∀ x, x.length = 16 → D (E x) = x) : CbcLaws (fun b : Bytes => b.length = 16) xorBytes E D where
+  xor_cancel := fun a b ha hb => xorBytes_cancel a b (by rw [ha, hb])
+  xor_wf := fun a b ha hb => by rw [xorBytes_length a b (by rw [ha, hb]), ha]
+  enc_wf := hE
+  dec_enc := hDE
+
 /-! ## `key::set_hex` -/
 
 theorem hexChar_facts : ∀ c : UInt8,
